@@ -12,6 +12,15 @@ translated from the Rust text that exists in /repo *now* (lightning/src/ln/chann
                                                            block): for EVERY assigned field the conjunction of the guards
                                                            under which the assignment is executed (statement tree of the
                                                            block, not a text pin); step order retract -> check_get_splice_locked
+  FundedChannel::do_best_block_updated (round 6)        -> mainCloseGuard: the force-close decision "Funding transaction was
+                                                           un-confirmed" as the conjunction of its three nested guards (channel
+                                                           state, `funding_tx_confirmations == 0 && was_confirmed`, minimum_depth),
+                                                           each translated atom by atom; pinned: was_confirmed / original_scid are
+                                                           captured BEFORE the retraction block, the section sits between
+                                                           check_get_channel_ready and the pending-splice section
+  FundedChannel::transactions_confirmed (round 6)       -> confirmLoopErr / confirmLoopMark: the two decisions of the candidate
+                                                           loop (two-confirmations error, funding_already_confirmed mark); pinned:
+                                                           initial values, `?` on the check, check_get_splice_locked(index, height) after it
   FundedChannel::transaction_unconfirmed                -> unconfGuard / unconfReorgHeight (+ pinned: funnels into do_best_block_updated)
   FundedChannel::get_relevant_txids                     -> pinned: all three of txid / confirmation height / block hash must be Some
   PendingFunding::check_get_splice_locked               -> pinned step order (quiescent, depth, already-sent test, sent := txid)
@@ -96,6 +105,25 @@ def field_defs(L, prefix, acc, atoms, fields, params, what):
             L.append('def %s%s %s (old : %s) : %s := if %s then %s else old' % (prefix, name, params, ty, ty, g, reset_lean))
     L.append('')
 
+def bool_expr(e, atoms, what):
+    """translate a Rust condition made of known atoms (optionally negated with `!`, optionally `X <cmp> <int>` atoms given as
+    regex -> template) joined by `&&` / `||` (no mixing without the atoms table knowing, no parentheses)"""
+    e = sq(e)
+    def atom(a):
+        a = a.strip(); neg = ''
+        if a.startswith('!') and not a.startswith('!='):
+            neg, a = '!', a[1:].strip()
+        for pat, tmpl in atoms:
+            m = re.fullmatch(pat, a)
+            if m: return '(' + neg + (tmpl % m.groups() if m.groups() else tmpl) + ')' if neg else (tmpl % m.groups() if m.groups() else tmpl)
+        raise TranslateError("%s: unknown atom `%s`" % (what, a))
+    ors = [o for o in e.split(' || ')]
+    out = []
+    for o in ors:
+        ands = [atom(a) for a in o.split(' && ')]
+        out.append(' && '.join(ands) if len(ors) == 1 or len(ands) == 1 else '(' + ' && '.join(ands) + ')')
+    return ' || '.join(out)
+
 def main(out_path):
     ch = strip_comments(rd('lightning/src/ln/channel.rs'))
     L = ['/- GENERATED by tools/gen_fundconf.py from lightning/src/ln/channel.rs — do not edit. -/',
@@ -179,6 +207,74 @@ def main(out_path):
                 'funding.short_channel_id': ('Scid', 'Bool', 'None', 'false'),
                 'pending_splice.sent_funding_txid': ('Sent', 'Option Nat', 'None', 'none')},
                '(confs : Nat) (sent txid : Option Nat)', 'do_best_block_updated pending splice')
+
+    # ---- do_best_block_updated: the force-close decision "Funding transaction was un-confirmed" (round 6) ----------
+    bs = sq(b)
+    i_scid = bs.find('let original_scid = self.funding.short_channel_id;')
+    i_was = bs.find('let was_confirmed = self.funding.funding_tx_confirmed_in.is_some();')
+    i_ret = bs.find('let funding_tx_confirmations = self.funding.get_funding_tx_confirmations(height); if funding_tx_confirmations == 0 {')
+    if not (0 < i_scid < i_was < i_ret):
+        raise TranslateError("do_best_block_updated: original_scid / was_confirmed are no longer captured BEFORE the retraction block")
+    if len(re.findall(r'\bwas_confirmed\b\s*=[^=]', bs)) != 1 or len(re.findall(r'\bfunding_tx_confirmations\b\s*=[^=]', bs)) != 1:
+        raise TranslateError("do_best_block_updated: was_confirmed / funding_tx_confirmations assigned more than once")
+    m = one(r'if let Some\(channel_ready\) = self\.check_get_channel_ready\(height, logger\) \{', bs, 'do_best_block_updated: check_get_channel_ready call')
+    e_ready = match_brace(bs, bs.index('{', m.start()))
+    m = re.match(r'\s*if ((?:(?!\{).)*?) \{', bs[e_ready:])
+    if not m: raise TranslateError("do_best_block_updated: no state guard directly after the check_get_channel_ready block")
+    g_state = m.group(1)
+    k0 = e_ready + m.end() - 1; e0 = match_brace(bs, k0)
+    blk0 = bs[k0 + 1:e0 - 1].strip()
+    m1 = re.match(r'if ((?:(?!\{).)*?) \{', blk0)
+    if not m1: raise TranslateError("do_best_block_updated: state-guard block does not start with the un-confirmed test")
+    g_unconf = m1.group(1)
+    k1 = m1.end() - 1; e1 = match_brace(blk0, k1)
+    if blk0[e1:].strip(): raise TranslateError("do_best_block_updated: extra statements after the un-confirmed test in the state-guard block")
+    blk1 = blk0[k1 + 1:e1 - 1].strip()
+    m2 = one(r'if self\.context\.minimum_depth\(&self\.funding\)\.expect\("[^"]*"\) (>|>=|==|!=|<|<=) (\d+) \{', blk1, 'do_best_block_updated: minimum_depth test of the force-close')
+    k2 = blk1.index('{', m2.start()); e2 = match_brace(blk1, k2)
+    blk2 = blk1[k2 + 1:e2 - 1]
+    if blk1[e2:].strip(): raise TranslateError("do_best_block_updated: statements after the minimum_depth block of the force-close")
+    if blk2.count('return') != 1 or not re.search(r'return Err\(ClosureReason::ProcessingError \{ err: err_reason \}\); *$', blk2.strip()):
+        raise TranslateError("do_best_block_updated: the minimum_depth block no longer ends in the one `return Err(ProcessingError)`")
+    if blk0.count('return') != 1: raise TranslateError("do_best_block_updated: another return appeared in the state-guard block")
+    pre2 = blk1[:m2.start()].strip()
+    if not re.fullmatch(r'if let Some\(scid\) = original_scid \{ self\.context\.historical_scids\.push\(scid\); \} else \{ debug_assert!\(false\); \}', pre2):
+        raise TranslateError("do_best_block_updated: historical_scids bookkeeping before the minimum_depth test changed shape")
+    rest0 = bs[e0:].lstrip()
+    if not rest0.startswith('else if !self.funding.is_outbound() && self.funding.funding_tx_confirmed_in.is_none() &&'):
+        raise TranslateError("do_best_block_updated: the state guard is no longer followed by the funding-timeout arm")
+    i_ps = bs.find('if let Some(pending_splice) = &mut self.pending_splice {')
+    if not (e0 < i_ps): raise TranslateError("do_best_block_updated: force-close decision no longer precedes the pending-splice section")
+    lean_state = bool_expr(g_state, [(r'matches!\(self\.context\.channel_state, ChannelState::ChannelReady\(_\)\)', 'isReady'),
+                                     (r'self\.context\.channel_state\.is_our_channel_ready\(\)', 'ourReady')], 'do_best_block_updated state guard')
+    lean_unconf = bool_expr(g_unconf, [(r'funding_tx_confirmations (==|!=|>|>=|<|<=) (\d+)', 'confs %s %s'),
+                                       (r'was_confirmed', 'wasConfirmed')], 'do_best_block_updated un-confirmed test')
+    L.append('/-- do_best_block_updated: `return Err(ProcessingError "Funding transaction was un-confirmed ...")` is executed iff')
+    L.append('    `%s` && `%s` && `minimum_depth %s %s` (was_confirmed captured before the retraction block) -/' % (g_state, g_unconf, m2.group(1), m2.group(2)))
+    L.append('def mainCloseGuard (isReady ourReady : Bool) (confs : Nat) (wasConfirmed : Bool) (minDepth : Nat) : Bool :=')
+    L.append('  (%s) && (%s) && (minDepth %s %s)' % (lean_state, lean_unconf, m2.group(1), m2.group(2)))
+    L.append('')
+
+    # ---- FundedChannel::transactions_confirmed: the candidate loop (round 6) -----------------------------------------
+    _, _, tbody = find_fn(ch, 'transactions_confirmed', after='fn check_get_channel_ready')
+    tb = sq(strip_macros(tbody))
+    m = one(r'if let Some\(pending_splice\) = &mut self\.pending_splice \{ let mut confirmed_funding_index = None; let mut funding_already_confirmed = false; '
+            r'let candidates = pending_splice\.negotiated_candidates\.iter_mut\(\)\.map\(\|candidate\| &mut candidate\.funding\); '
+            r'for \(index, funding\) in candidates\.enumerate\(\) \{ '
+            r'if self\.context\.check_for_funding_tx_confirmed\( funding, block_hash, height, index_in_block, &mut confirmed_tx, logger, \)\? \{ '
+            r'if ((?:(?!\{).)*?) \{ let err_reason = "[^"]*"; return Err\(ClosureReason::ProcessingError \{ err: err_reason\.to_owned\(\) \}\); \} '
+            r'confirmed_funding_index = Some\(index\); \} '
+            r'else if funding\.funding_tx_confirmation_height (!=|==|>|>=) (\d+) \{ funding_already_confirmed = true; \} \} '
+            r'if let Some\(confirmed_funding_index\) = confirmed_funding_index \{ '
+            r'if let Some\(splice_locked\) = pending_splice\.check_get_splice_locked\( &self\.context, confirmed_funding_index, height, \) \{', tb,
+            'transactions_confirmed: candidate loop')
+    lean_err = bool_expr(m.group(1), [(r'funding_already_confirmed', 'already'), (r'confirmed_funding_index\.is_some\(\)', 'idxSome'),
+                                      (r'confirmed_funding_index\.is_none\(\)', '!idxSome')], 'transactions_confirmed two-confirmations test')
+    L.append('/-- transactions_confirmed candidate loop: a candidate that confirms in this transaction is an ERROR (force-close) iff `%s` -/' % m.group(1))
+    L.append('def confirmLoopErr (already idxSome : Bool) : Bool := %s' % lean_err)
+    L.append('/-- transactions_confirmed candidate loop: a candidate NOT confirmed by this transaction sets funding_already_confirmed iff its recorded height `%s %s` -/' % (m.group(2), m.group(3)))
+    L.append('def confirmLoopMark (confHeight : Nat) : Bool := confHeight %s %s' % (m.group(2), m.group(3)))
+    L.append('')
 
     # ---- FundedChannel::transaction_unconfirmed -------------------------------------------------------------------
     _, _, body = find_fn(ch, 'transaction_unconfirmed', after='pub fn get_relevant_txids(&self) -> impl Iterator')
